@@ -22,6 +22,7 @@ HISTORY = {
     'R3-H': 'third round (area: authenticateOrigin). First trial: MISSED → origin patterns that carry a scheme and origins with the authorised suffix in their query / fragment added to the hs-accept grid',
     'R3-I': 'third round (area: handshakeRequest). First trial: MISSED → hs-dial re-uses the caller\'s `HTTPHeader` map after an earlier Dial with other options and checks that Dial leaves it untouched (`hs-dial:caller-headers-modified`)',
     'R3-J': 'third round (area: netconn close / EOF translation). First trial: MISSED → netconn kinds `drop` (transport EOF / failure / protocol error without a Close frame must not read as io.EOF) and an `eof` flag on interrupted calls',
+    'R2-C19': 'second round. Caught at the first trial, but only by chance (two wsjson cases of the same run happened to share the doubly pooled buffer): the final regression over all seeded changes missed it once → wsjson kind `overlap` (a rejected document, then two overlapping reads on other connections under GOMAXPROCS(1)) makes it deterministic',
     'R2-C04': 'second round, first trial: MISSED (the sweep of cut offsets used only 7-bit frame lengths) → header-region cut sweep over every length encoding and order (16-bit first on a fresh connection, after a 64-bit one, after a multiple of 256), both roles, both endings',
     'R2-C07': 'second round, first trial: MISSED (the suite always read a message to its end before the next one) → histories that start the next message after reading only a prefix of a small compressed one (`msgnf` / `plainnf`); the replay then reports `put-by-non-holder`',
     'R2-C02': 'second round; the sub-agent arrived at the same slip as `seeded/C01` independently',
